@@ -1,6 +1,8 @@
 import Pymeeus.Refine.Weekday
 import Pymeeus.Refine.Sidereal
 import Pymeeus.Props.C01
+import Pymeeus.Refine.SiderealIAU
+import Pymeeus.Refine.SiderealApparent
 /-
 C16 — Weekday, day of year, fractional year and sidereal time follow the JDE.
 
@@ -10,9 +12,12 @@ exact-arithmetic instantiation of templates/EpochCal.lean: for EVERY rational JD
 (up to 9999 where the code goes through CPython's datetime, which stops there), every day fraction 0 ≤ f < 1.
 An instant of the civil date (y, m, d) is `compute_jde y m (d + f)`.
 
-NOT carried by any theorem (covered by the correspondence run and the predicates of harness/c16.py only):
-the agreement of mean_sidereal_time with the IAU 1982 expression to 1e-7 day, and the apparent sidereal time
-(equation of the equinoxes, nutation series, cosine).
+The sidereal-time clauses that need real analysis (apparent sidereal time: cosine, nutation series) are stated about
+`Pymeeus.GenR`, the real-number instantiation of THE SAME template text (templates/EpochCal.lean, kinds Q R F), with the
+nutation / obliquity model and amplitude lemmas of C08 (templates/Vsop.lean, SunEarth.lean; Refine/SunEarth.lean).
+The 1.2 s bound on the equation of the equinoxes is proved where a sum-of-amplitudes bound can reach it (years 0 … 2500);
+on the rest of |T| ≤ 40 centuries the provable constant is 1.345 s, and beyond T ≈ +40.9 the clause fails on the real code
+(finding C16-eqeq-far-future); in between it is covered by the predicates of harness/c16.py only.
 -/
 namespace Pymeeus.C16
 open Pymeeus Pymeeus.PQ Pymeeus.GenQ Pymeeus.Refine Pymeeus.Spec
@@ -248,6 +253,40 @@ theorem gmst_at_0h (n : Int) :
   rw [mean_sidereal_time_eq, hu]
   simp
 
+
+/-- "agrees with the IAU 1982 expression to 1e-7 day": for EVERY rational JDE of the stated range [0, 5.4e6], modulo whole
+    turns, against Meeus (12.4) / IAU 1982 written for the instant itself (Spec/GMST.lean).  The difference is a
+    polynomial in (centuries to 0h UT, fraction of the UT day) with ten tiny coefficients; the bound proved is 4.3e-8. -/
+theorem gmst_iau1982 (j : ℚ) (h0 : 0 ≤ j) (h1 : j ≤ 5400000) :
+    ∃ k : Int, |mean_sidereal_time j - Spec.gmstIAU1982 j - (k : ℚ)| ≤ 1e-7 := by
+  obtain ⟨k, hk⟩ := gmst_vs_iau1982_core j h0 h1
+  exact ⟨k, hk.trans (by norm_num)⟩
+
+/-! ### Apparent sidereal time (real-number instantiation `GenR` of the same model text) -/
+
+/-- "apparent sidereal time differs from it by the equation of the equinoxes": for every JDE, every obliquity ε (degrees)
+    and nutation in longitude Δψ (degrees) handed to the method, apparent − mean = Δψ·3600·cos ε / 15 / 86400 day, exactly
+    (the code does not reduce the sum to [0, 1)). -/
+theorem apparent_is_mean_plus_equation_of_equinoxes (j ε ψ : ℝ) :
+    GenR.apparent_sidereal_time j ε ψ - GenR.mean_sidereal_time j = ψ * 3600 * Real.cos (ε * (Real.pi / 180)) / 15 / 86400 := by
+  rw [SiderealApparent.apparent_eq]; ring
+
+/-- the size of the equation of the equinoxes with the library's nutation series, whatever obliquity is passed, for
+    |T| ≤ 40 centuries (years −2000 … 6000): at most 1.345 s — the constant a sum-of-amplitudes bound gives
+    ((17.1996 + 0.01742·40 + 2.232 + 0.00081·40)″ / 15); it does NOT reach the property's 1.2 s. -/
+theorem apparent_minus_mean_bound_partial (j ε : ℝ) (h : |(j - 2451545) / 36525| ≤ 40) :
+    |GenR.apparent_sidereal_time j ε (GenR.Helio.nutation_longitude j) - GenR.mean_sidereal_time j| ≤ 1.345 / 86400 :=
+  SiderealApparent.apparent_minus_mean_le j ε h
+
+/-- "(under 1.2 s)": with the library's own true obliquity and nutation in longitude, for every instant from 20 centuries
+    before to 5 centuries after J2000.0 (JDE 1721045 … 2634170).  PARTIAL in the range: the property states [0, 5.4e6]; the
+    clause is false of the code beyond JDE ≈ 3.9e6 (known finding), and between year 2500 and 5970 it holds on every
+    sampled instant but the amplitude-sum argument cannot show it. -/
+theorem apparent_minus_mean_under_1_2s_partial (j : ℝ) (h1 : -20 ≤ (j - 2451545) / 36525) (h2 : (j - 2451545) / 36525 ≤ 5) :
+    |GenR.apparent_sidereal_time j (GenR.Helio.true_obliquity j) (GenR.Helio.nutation_longitude j) - GenR.mean_sidereal_time j|
+      < 1.2 / 86400 :=
+  SiderealApparent.apparent_minus_mean_lt_1_2s j h1 h2
+
 -- Non-vacuity: the hypotheses are met by concrete, non-trivial inputs.
 example : Valid 1582 10 15 ∧ weekdayGregorian 1582 10 15 = 5 ∧ weekdayGregorian 2000 1 1 = 6 := by decide
 example : Valid 1500 2 29 ∧ Valid (-4712) 12 31 ∧ Valid 1582 12 31 ∧ Valid 2000 2 29 := by decide
@@ -256,5 +295,7 @@ example : (1e-10 : ℚ) ≤ (2451545.25 : ℚ) - ut0 2451545.25 ∧ ⌊(2451545.
   have h1 : ⌊(2451545.25 : ℚ) - 1 / 2⌋ = 2451544 := by rw [Int.floor_eq_iff]; norm_num
   have h2 : ⌊(2451545.4 : ℚ) - 1 / 2⌋ = 2451544 := by rw [Int.floor_eq_iff]; norm_num
   unfold ut0; rw [h1, h2]; norm_num
+
+example : (-20 : ℝ) ≤ ((2451545 : ℝ) - 2451545) / 36525 ∧ ((2451545 : ℝ) - 2451545) / 36525 ≤ 5 := by norm_num
 
 end Pymeeus.C16
